@@ -7,6 +7,7 @@ import (
 	"fmt"
 	"net/http"
 	"net/http/httptest"
+	"net/netip"
 	"path/filepath"
 	"sort"
 	"strconv"
@@ -107,6 +108,32 @@ type c12Att struct {
 	now, now2 int64
 	addr      string
 	ok        bool
+	hname     string // proxy header to set ("" none), handleLogin histories only
+	hval      string
+}
+
+// c12Trusted: the trusted_proxies of the handleLogin histories.
+var c12Trusted = []netip.Prefix{netip.MustParsePrefix("127.0.0.0/8"), netip.MustParsePrefix("10.0.0.0/8"), netip.MustParsePrefix("::1/128")}
+
+var c12HdrNames = []string{"X-Real-IP", "X-Forwarded-For", "CF-Connecting-IP", "True-Client-IP"}
+
+// c12HdrAddr: the address a header value names (the leftmost element of
+// X-Forwarded-For) and whether trusted_proxies contains it; ok is false when
+// the value is not an address.
+func c12HdrAddr(name, val string) (addr string, trusted, ok bool) {
+	if name == "X-Forwarded-For" {
+		val, _, _ = strings.Cut(val, ",")
+	}
+	ip, err := netip.ParseAddr(val)
+	if err != nil {
+		return "", false, false
+	}
+	for _, p := range c12Trusted {
+		if p.Contains(ip.Unmap()) {
+			trusted = true
+		}
+	}
+	return ip.String(), trusted, true
 }
 
 // c12LimFlow drives the limiter through its ...Locked methods with scripted
@@ -297,7 +324,7 @@ func c12LoginHistory(t *testing.T, out *vfOut, rnd *vfRand, users []webUser, nam
 	n int, script []c12Att) {
 	dir := t.TempDir()
 	ab := newAuthRateLimiter(block, max)
-	auth := InitAuth(filepath.Join(dir, "sessions.db"), users, 3600, ab, netutil.SliceSubnetSet(nil))
+	auth := InitAuth(filepath.Join(dir, "sessions.db"), users, 3600, ab, netutil.SliceSubnetSet(c12Trusted))
 	if auth == nil {
 		t.Fatal("InitAuth failed")
 	}
@@ -392,12 +419,48 @@ func c12LoginHistory(t *testing.T, out *vfOut, rnd *vfRand, users []webUser, nam
 		}
 		req := httptest.NewRequest(http.MethodPost, "/control/login", strings.NewReader(body))
 		req.Header.Set("Content-Type", "application/json")
-		if rnd.Chance(1, 3) {
-			// proxy headers must not change the address the limiter counts
-			// (they are only used for logging)
-			req.Header.Set(vfPick(rnd, []string{"X-Real-IP", "X-Forwarded-For", "CF-Connecting-IP", "True-Client-IP"}),
-				fmt.Sprintf("203.0.113.%d", rnd.Intn(250)))
+		// proxy headers must not change the address the limiter asks about
+		// and counts under (they are only used for logging), also when they
+		// name an address inside trusted_proxies
+		hname, hval := "", ""
+		if script != nil {
+			hname, hval = script[i].hname, script[i].hval
+		} else if rnd.Chance(3, 5) {
+			hname = vfPick(rnd, c12HdrNames)
+			switch rnd.Intn(8) {
+			case 0:
+				hval = "127.0.0.1"
+			case 1, 2:
+				hval = fmt.Sprintf("10.0.0.%d", i%250) // rotating, trusted
+			case 3:
+				hval = "::1"
+			case 4:
+				hval = "::ffff:127.0.0.1"
+			case 5:
+				hval = fmt.Sprintf("203.0.113.%d", rnd.Intn(250)) // not trusted
+			case 6:
+				hval = c12Addrs[rnd.Intn(len(c12Addrs))] // another client's address
+			default:
+				hval = "not-an-address"
+			}
+			if hname == "X-Forwarded-For" && rnd.Chance(1, 2) {
+				hval += ", 198.51.100.7"
+			}
+		}
+		hdrCoq, hdrTrusted := vfOpt("bytes", false, ""), false
+		if hname != "" {
+			req.Header.Set(hname, hval)
 			classes["login-proxy-header"] = true
+			if ha, tr, ok := c12HdrAddr(hname, hval); ok {
+				hdrCoq, hdrTrusted = vfOpt("bytes", true, vfBytes(ha)), tr
+				if tr {
+					classes["login-proxy-header-trusted"] = true
+				} else {
+					classes["login-proxy-header-untrusted"] = true
+				}
+			} else {
+				classes["login-proxy-header-garbage"] = true
+			}
 		}
 		req.RemoteAddr = addr + ":40000"
 		if strings.Contains(addr, ":") {
@@ -427,9 +490,23 @@ func c12LoginHistory(t *testing.T, out *vfOut, rnd *vfRand, users []webUser, nam
 			retry, _ = strconv.ParseInt(s, 10, 64)
 		}
 		nsess := len(auth.sessions)
-		steps = append(steps, fmt.Sprintf("{| C12.ls_kind := %s; C12.ls_now := %s; C12.ls_addr := %s; C12.ls_ok := %s; C12.ls_status := %s; C12.ls_retry := %s; C12.ls_nsess := %s; C12.ls_tab := %s |}",
-			vfZ(int64(kind)), vfZ(v0), vfBytes(addr), vfBool(ok), vfZ(int64(status)), vfZ(retry), vfN(uint64(nsess)), c12LTable(ab, rel)))
-		desc = append(desc, fmt.Sprintf("+%v (t=%v) %s ok=%v kind=%d -> %d retry=%d", time.Duration(d), time.Duration(v0).Round(time.Millisecond), addr, ok, kind, status, retry))
+		steps = append(steps, fmt.Sprintf("{| C12.ls_kind := %s; C12.ls_now := %s; C12.ls_addr := %s; C12.ls_hdr := %s; C12.ls_trusted := %s; C12.ls_ok := %s; C12.ls_status := %s; C12.ls_retry := %s; C12.ls_nsess := %s; C12.ls_tab := %s |}",
+			vfZ(int64(kind)), vfZ(v0), vfBytes(addr), hdrCoq, vfBool(hdrTrusted), vfBool(ok), vfZ(int64(status)), vfZ(retry), vfN(uint64(nsess)), c12LTable(ab, rel)))
+		hd := ""
+		if hname != "" {
+			hd = fmt.Sprintf(" [%s: %s]", hname, hval)
+		}
+		desc = append(desc, fmt.Sprintf("+%v (t=%v) %s%s ok=%v kind=%d -> %d retry=%d", time.Duration(d), time.Duration(v0).Round(time.Millisecond), addr, hd, ok, kind, status, retry))
+		// the table must hold peer addresses only
+		for k := range ab.failedAuths {
+			peer := false
+			for _, pa := range c12Addrs {
+				peer = peer || pa == k
+			}
+			if !peer {
+				fail("login-limiter-key", fmt.Sprintf("attempt %d from %s%s: the limiter now holds a record for %q, which is not the address of any TCP peer", i, addr, hd, k))
+			}
+		}
 		classes["login-"+strconv.Itoa(status)] = true
 		if kind == 1 {
 			continue
@@ -865,6 +942,20 @@ func TestVerifC12(t *testing.T) {
 		{now: 0, addr: c12Addrs[1], ok: true}, {now: int64(15*time.Minute) + 3*s, addr: a, ok: true}, {now: 0, addr: a}})
 	c12LoginHistory(t, out, vfNewRand(2), users, "prelude/success-clears", 2, 30*time.Second, 6, []c12Att{
 		{now: 0, addr: a}, {now: s, addr: a, ok: true}, {now: s, addr: a}, {now: 65 * s, addr: a}, {now: s, addr: a}, {now: s, addr: a, ok: true}})
+	// proxy headers naming addresses inside trusted_proxies: fixed, rotating,
+	// on the successful attempt, IPv4-mapped, X-Forwarded-For list
+	c12LoginHistory(t, out, vfNewRand(5), users, "prelude/trusted-header-fixed", 3, 15*time.Minute, 6, []c12Att{
+		{now: 0, addr: a, hname: "X-Real-IP", hval: "127.0.0.1"}, {now: s, addr: a, hname: "X-Real-IP", hval: "127.0.0.1"},
+		{now: s, addr: a, hname: "X-Real-IP", hval: "127.0.0.1"}, {now: s, addr: a, ok: true, hname: "X-Real-IP", hval: "127.0.0.1"},
+		{now: s, addr: a, ok: true}, {now: s, addr: c12Addrs[2], ok: true, hname: "X-Real-IP", hval: "127.0.0.1"}})
+	c12LoginHistory(t, out, vfNewRand(6), users, "prelude/trusted-header-rotating", 2, time.Minute, 6, []c12Att{
+		{now: 0, addr: a, hname: "X-Forwarded-For", hval: "10.0.0.1, 198.51.100.7"}, {now: s, addr: a, hname: "CF-Connecting-IP", hval: "10.0.0.2"},
+		{now: s, addr: a, hname: "True-Client-IP", hval: "::ffff:127.0.0.1"}, {now: s, addr: a, ok: true, hname: "X-Real-IP", hval: "::1"},
+		{now: s, addr: a, ok: true, hname: "X-Real-IP", hval: "203.0.113.9"}, {now: s, addr: a, hname: "X-Real-IP", hval: "not-an-address"}})
+	c12LoginHistory(t, out, vfNewRand(7), users, "prelude/trusted-header-success-clears", 2, time.Minute, 5, []c12Att{
+		{now: 0, addr: a, hname: "X-Real-IP", hval: "10.0.0.1"}, {now: s, addr: a, ok: true, hname: "X-Real-IP", hval: "10.0.0.2"},
+		{now: s, addr: a, hname: "X-Real-IP", hval: "10.0.0.3"}, {now: s, addr: a, hname: "X-Real-IP", hval: "10.0.0.1"},
+		{now: s, addr: a, ok: true, hname: "X-Real-IP", hval: "10.0.0.4"}})
 	c12SessHistory(t, out, vfNewRand(3), users, "prelude/lifecycle", 12, []string{
 		"new", "check", "http", "new", "logout", "check", "restart", "check", "setexp", "check", "restart", "check"})
 
